@@ -107,6 +107,14 @@ def rule_dk(ctx: Ctx) -> RuleResult:
             flag = n.args[1] if len(n.args) > 1 else next((k.value for k in n.keywords if k.arg == fparam), None)
             st = ("the dict-keys-fields decision applies to the direct value of the named field only; nested list items "
                   "and mapping values are typed with the default")
+            # a constant equal to the parameter's own default says the same as passing nothing
+            a_ = det.node.args
+            pos = [x.arg for x in a_.posonlyargs + a_.args]
+            dflt = None
+            if fparam in pos and len(pos) - pos.index(fparam) <= len(a_.defaults):
+                dflt = a_.defaults[pos.index(fparam) - (len(pos) - len(a_.defaults))]
+            if flag is not None and isinstance(flag, ast.Constant) and isinstance(dflt, ast.Constant) and flag.value is dflt.value:
+                flag = None
             if f == det or f.parent == det:
                 ok = flag is None
                 rr.ob(f.relpath, f.qualname, norm(n), st, DISCHARGED if ok else VIOLATED,
@@ -141,8 +149,12 @@ def rule_dk(ctx: Ctx) -> RuleResult:
     # the named-field set holds the option values themselves
     rr.instances += 1
     asg = [n for n in walk_no_nested(init.node) if isinstance(n, ast.Assign) and norm(n.targets[0]) == "self.dict_keys_fields"]
-    ok = len(asg) == 1 and norm(asg[0].value) in ("set(dict_keys_fields or ())", "set(dict_keys_fields or [])",
-                                                     "frozenset(dict_keys_fields or ())", "set(dict_keys_fields)")
+    ok = len(asg) == 1 and norm(asg[0].value) in (
+        "set(dict_keys_fields or ())", "set(dict_keys_fields or [])", "frozenset(dict_keys_fields or ())", "set(dict_keys_fields)",
+        # the same default spelled as a conditional expression
+        "set(dict_keys_fields) if dict_keys_fields else set()", "set(dict_keys_fields) if dict_keys_fields else frozenset()",
+        "set() if not dict_keys_fields else set(dict_keys_fields)", "set(dict_keys_fields) if dict_keys_fields is not None else set()",
+        "set() if dict_keys_fields is None else set(dict_keys_fields)")
     rr.ob(init.relpath, init.qualname, norm(asg[0]) if asg else "self.dict_keys_fields", "the field-name option is "
           "stored as the set of the given names", DISCHARGED if ok else VIOLATED,
           "set of the names as given" if ok else "names are transformed or not stored", init.node.lineno)
@@ -200,10 +212,15 @@ def rule_dk(ctx: Ctx) -> RuleResult:
                             norm(a.args[1]) in (f"{vparam}.keys()", vparam):
                         okq = True
                     if isinstance(a, (ast.GeneratorExp, ast.ListComp)) and len(a.generators) == 1 and not a.generators[0].ifs \
-                            and norm(a.generators[0].iter) in (f"{vparam}.keys()", vparam) and isinstance(a.elt, ast.Call) \
-                            and norm(a.elt.func) in (f"{lv}.match", f"{lv}.fullmatch") and \
-                            norm(a.elt.args[0]) == norm(a.generators[0].target):
-                        okq = True
+                            and norm(a.generators[0].iter) in (f"{vparam}.keys()", vparam):
+                        elt = a.elt
+                        # `<pattern>.match(k) is not None` asks the same as the truth value of the match object
+                        if isinstance(elt, ast.Compare) and len(elt.ops) == 1 and isinstance(elt.ops[0], ast.IsNot) and \
+                                isinstance(elt.comparators[0], ast.Constant) and elt.comparators[0].value is None:
+                            elt = elt.left
+                        if isinstance(elt, ast.Call) and norm(elt.func) in (f"{lv}.match", f"{lv}.fullmatch") and len(elt.args) == 1 and \
+                                norm(elt.args[0]) == norm(a.generators[0].target):
+                            okq = True
                 if not okq:
                     problems.append(f"guard `{norm(t)[:70]}` is not all(<pattern>.match(k) for every key k of the object)")
         rr.ob(det.relpath, det.qualname, norm(n), st, VIOLATED if problems else DISCHARGED,
